@@ -158,6 +158,35 @@ def main(tier, seed):
         queries.append({"k": "iso", "dH": s["dH"], "kind": s["kind"], "nreq": 50 if pts is None else len(pts), "h": [enc(v) for v in h], "slopes": [enc(v) for v in sl]})
         meta.append(("iso", key, sig, {"scenario": s, "loading_points": pts, "enthalpy": h[:6], "all": h}))
 
+    # ---- isosteric, two-branch point isotherms (spec BranchScenarios)
+    br_scen = sorted(space["branch"], key=lambda s: (s["pair"], len(s["temps"]), s["temps"], s["gen"], s["branch"]))
+    for bi, s in enumerate(br_scen):
+        if not pick(bi, seed, 1 if thorough else 6):
+            continue
+        key = ("branch", tuple(s["pair"]), tuple(s["temps"]), s["gen"], s["branch"])
+        sig = {"site": "isosteric_enthalpy", "units": "bar-mmol-g-K", "isotherms": "two branches", "branch": s["branch"]}
+        try:
+            isos = []
+            for temp in s["temps"]:
+                shift = 1.0 + 0.37 * ((temp * 0.618) % 1.0)
+                x = numpy.geomspace(1e-2, 1e2, 300) * shift
+                ka, kd = k_of_t(1.0, s["pair"][0], temp), k_of_t(1.0, s["pair"][1], temp)
+                pa, pd = x / ka, (x / kd)[::-1]                      # desorption stored from the highest pressure downwards
+                na, nd = forward(s["gen"], gen_params(s["gen"], 5.0, ka), pa), forward(s["gen"], gen_params(s["gen"], 5.0, kd), pd)
+                isos.append(pygaps.PointIsotherm(pressure=list(pa) + list(pd), loading=list(na) + list(nd), branch=[False] * len(pa) + [True] * len(pd),
+                                                 material="enth-sample", adsorbate="N2", temperature=float(temp), pressure_mode="absolute", pressure_unit="bar",
+                                                 loading_basis="molar", loading_unit="mmol", material_basis="mass", material_unit="g"))
+            pts = [f * 5.0 for f in (0.04, 0.2, 0.5, 0.75)]
+            out = isosteric_enthalpy(isos, loading_points=pts, branch=s["branch"])
+        except Exception as e:
+            run.count(key)
+            run.violation({**sig, "clause": "returns", "observed": "exception:" + exc_class(e)}, {"scenario": s, "message": str(e)[:300]})
+            continue
+        h = [float(v) for v in out["isosteric_enthalpy"]]
+        sl = [float(v) for v in out["slopes"]]
+        queries.append({"k": "iso", "dH": s["dH"], "kind": "point", "nreq": len(pts), "h": [enc(v) for v in h], "slopes": [enc(v) for v in sl]})
+        meta.append(("iso", key, sig, {"scenario": {**s, "kind": "point"}, "loading_points": pts, "enthalpy": h[:6], "all": h}))
+
     # ---- Whittaker
     wh_plan = [("N2", (77.35, 90.0, 110.0)), ("CO2", (230.0, 273.15, 298.0)), ("CH4", (112.0, 150.0, 180.0))]
     n_m = 5.0
@@ -327,7 +356,7 @@ def main(tier, seed):
             rule="isosteric: dH {5,10,20,40,60} kJ/mol x all 26 subsets (2-5) of {200,250,298,350,400} K x order (asc, desc, rotated) x generator (Langmuir, Toth, DS-Langmuir) x "
                  "(model isotherm | 300-point isotherm) x pressure magnitude 10^0/-6/-10/+3 bar (by rotation) x 5 unit configurations (3 absolute incl. degC; relative and relative% pressure with n-butane), enumerated by spec/Enthalpy.tla ("
                  + ("thorough: all" if thorough else "quick: every 8th model / 24th point scenario")
-                 + ", offset by the seed); 4 loadings each, every 9th run uses the default 50-point loading grid. Whittaker: N2/CO2/CH4 x 3 subcritical temperatures x "
+                 + ", offset by the seed); 4 loadings each, every 9th run uses the default 50-point loading grid. Two-branch point isotherms (adsorption / desorption built with different dH: 3 pairs x 26 subsets x 3 generators x branch ads|des, thorough all, quick 1/6). Whittaker: N2/CO2/CH4 x 3 subcritical temperatures x "
                    "(Langmuir, Toth t=0.6, 0.85) x model isotherm expressed in Pa (2 affinities) / kPa / bar / torr (refusal accepted, a returned value must be the closed form) with loadings placed below / at / inside / beyond the range where h_vap exists and above the capacity n_m, plus fitted point isotherms stored in 5 representations (Pa/bar/kPa, relative, relative%, K/degC). "
                    "Initial point: 12 branch layouts x 6 enthalpy patterns (incl. negative, zero and > 400 first values) x 2 branches from the spec. distinct = distinct scenario; initial-point cases whose branch is empty are trivial")
     run.assume("K(T) = K0 exp(dH/RT) with R = 8.314462618 J/(mol K) is computed by the harness (input); ln and real powers of the Whittaker closed form are harness input, "
